@@ -243,6 +243,8 @@ def classify(step):
         return 'panic', step['detail']
     d = step['detail']
     if not step['reply']:
+        if 'pagemodel=differs' in d and 'expected=' not in d:
+            return 'reply', 'pagemodel=differs'
         m = re.search(r'expected=(\S+) observed_code=(\d+)( short-read got=\d+ want=\d+ prefix=1 free=\d+ nospace=\d| data-differs at=\d+| long-read)?', d)
         return 'reply', (m.group(0) if m else d)
     if step['nwf']:
